@@ -38,10 +38,19 @@ Definition policy_rule : sty := SObj [req s!"entity" SStr; req s!"recommendation
 Definition requested_key_info : sty :=
   SObj [req s!"algorithm" SStr; req s!"room_id" (SId 2); req s!"sender_key" SStr; req s!"session_id" SStr].
 
+Definition reference : sty := SObj [req s!"rel_type" SStr; req s!"event_id" (SId 3)].
+
 Definition spec_contents : list (str * str * sty) := [
   (s!"EphemeralRoom", s!"m.typing", SObj [req s!"user_ids" (SArr (SId 1))]);
   (s!"GlobalAccountData", s!"m.ignored_user_list", SObj [req s!"ignored_users" (SMap 1 (SObj []))]);
   (s!"GlobalAccountData", s!"m.secret_storage.default_key", SObj [req s!"key" SStr]);
+  (s!"MessageLike", s!"m.key.verification.cancel",
+     SObj [req s!"reason" SStr; req s!"code" SStr; req s!"m.relates_to" reference]);
+  (s!"MessageLike", s!"m.key.verification.done", SObj [req s!"m.relates_to" reference]);
+  (s!"MessageLike", s!"m.key.verification.ready",
+     SObj [req s!"from_device" SStr; req s!"methods" (SArr SStr); req s!"m.relates_to" reference]);
+  (s!"MessageLike", s!"m.reaction",
+     SObj [req s!"m.relates_to" (SObj [req s!"rel_type" SStr; req s!"event_id" (SId 3); req s!"key" SStr])]);
   (s!"MessageLike", s!"m.room.redaction", SObj [opt s!"redacts" (SId 3); opt s!"reason" SStr]);
   (s!"RoomAccountData", s!"m.fully_read", SObj [req s!"event_id" (SId 3)]);
   (s!"RoomAccountData", s!"m.marked_unread", SObj [req s!"unread" SBool]);
